@@ -333,6 +333,20 @@ def path_conditions(f, node):
         return res
 
     rec(f.body, [])
+    # a conjunction that holds is each conjunct holding; a disjunction that
+    # does not hold is each disjunct not holding
+    work, flat = list(out), []
+    while work:
+        t, pol = work.pop(0)
+        while isinstance(t, ast.UnaryOp) and isinstance(t.op, ast.Not):
+            t, pol = t.operand, not pol
+        if isinstance(t, ast.BoolOp) and (
+                isinstance(t.op, ast.And) and pol or
+                isinstance(t.op, ast.Or) and not pol):
+            work = [(v, pol) for v in t.values] + work
+        else:
+            flat.append((t, pol))
+    out = flat
     # one polarity: `not x` holding is `x` not holding
     norm = []
     for t, pol in out:
